@@ -7,6 +7,7 @@ form of the fragment theorem (`nginxEvalConf (gen s) q = routeF s q` on probes) 
 -/
 import NGF.Model.Pipeline
 import NGF.Model.PipelineHyp
+import NGF.Model.PipelineTlsEval
 import NGF.Model.C02Judge
 
 namespace NGF.PipelineTie
@@ -237,6 +238,8 @@ structure TieResult where
   noShadow : Bool := false
   /-- the two scenario side conditions of `route_refines_spec_fragment` beyond `inFragment`/`noShadow` -/
   namesPlain : Bool := false
+  /-- every hostname passes `validateHostname` (`PipelineTls.hostDNS`): implies `namesPlain` (`namesPlain_from_hostDNS`) -/
+  hostsDNS : Bool := false
   routesHaveRules : Bool := false
   confEqual : Bool := false
   confDiff : String := ""
@@ -249,8 +252,8 @@ structure TieResult where
   specFail : Option String := none
 
 /-- everything the `pipeline` driver mode reports for one case. The equation `nginxEvalConf (gen s) q = routeF s q` is
-evaluated exactly where `route_refines_spec_fragment` claims it: `refineOK fs` (= inFragment ∧ noShadow ∧ namesPlain ∧
-routesHaveRules) and `reqOK q`. -/
+evaluated exactly where `route_refines_spec_fragment_dns` claims it: `inFragmentDNS fs` (hostnames as `validateHostname`
+accepts them — this implies `namesPlain`), `noShadow`, `routesHaveRules`, and `reqOK q`. -/
 def tie (cfg : NGF.NginxEval.Config) (s : SScenario) (cap : Nat) : TieResult :=
   match toFragment s with
   | .error e => { why := e }
@@ -261,7 +264,9 @@ def tie (cfg : NGF.NginxEval.Config) (s : SScenario) (cap : Nat) : TieResult :=
       let ns := Pipeline.noShadow model
       let np := Pipeline.namesPlain fs
       let rr := Pipeline.routesHaveRules fs
-      let hyp := Pipeline.refineOK fs
+      -- `route_refines_spec_fragment_dns`: inFragmentDNS ∧ noShadow ∧ routesHaveRules (no `namesPlain`)
+      let hd := NGF.PipelineTls.hostsDNS fs
+      let hyp := NGF.PipelineTls.inFragmentDNS fs && ns && rr
       let (eq, diff) := match abstractConf cfg with
         | .error e => (false, "real configuration not abstractable: " ++ e)
         | .ok real => match confDiff real model with
@@ -277,7 +282,7 @@ def tie (cfg : NGF.NginxEval.Config) (s : SScenario) (cap : Nat) : TieResult :=
         let t := if acc.1.isNone && inThm && n != o then some s!"{NGF.C02.showReq r} :: nginxEvalConf(gen)={repr n} :: routeF={repr o}" else acc.1
         let sp := if acc.2.1.isNone && !specAgree r o full then some s!"{NGF.C02.showReq r} :: routeF={repr o} :: oracle={repr full}" else acc.2.1
         (t, sp, acc.2.2.1 + (if inThm then 1 else 0), acc.2.2.2 + (if hyp && !Pipeline.reqOK q then 1 else 0))) (none, none, 0, 0)
-      { inFragment := true, noShadow := ns, namesPlain := np, routesHaveRules := rr, confEqual := eq, confDiff := diff,
+      { inFragment := true, noShadow := ns, namesPlain := np, hostsDNS := hd, routesHaveRules := rr, confEqual := eq, confDiff := diff,
         probes := probes.length, thmProbes := nthm, reqExcluded := nex, thmFail := tf, specFail := sf }
 
 end NGF.PipelineTie
